@@ -15,19 +15,29 @@ func main() { Main("c01", run) }
 
 func run(seed uint64, n int, tier string, outDir string) []*Stats {
 	r := NewRng(seed)
+	if os.Getenv("C01_ONLY") == "asi" { // debugging aid
+		sx := NewStats("c01-asi", seed)
+		glueASI(r, sx, n)
+		sx.Finish("debug")
+		return []*Stats{sx}
+	}
 	if os.Getenv("C01_ONLY") == "annexb" { // debugging aid: only the Annex B stream
 		sta := NewStats("c01-annexb", seed)
 		glueAnnexB(r, sta, n)
 		sta.Finish("debug")
 		return []*Stats{sta}
 	}
-	cf := NewCoqFile("From V Require Import Common.Base C01.Utf C01.Quote C01.SpecLiteral C01.Num C01.SpecNumeric C01.Harness.")
+	cf := NewCoqFile("From V Require Import Common.Base C01.Utf C01.Quote C01.SpecLiteral C01.Num C01.SpecNumeric C01.Keys C01.Harness.")
 	extra := ""
 
 	// 1. literal printers against the Coq model (hook level) + predicate
 	sts := NewStats("c01-strings", seed)
 	extra += corrStrings(r, sts, cf, 2*n)
 	sts.Finish("string/template/identifier printing: boundary grid of every special case of printUnquotedUTF16 plus seeded UTF-16 sequences over all classes (controls, quotes, ${, </script in any case, U+2028/2029/FEFF, Latin-1, BMP, paired and lone surrogates) x random printer configuration (charset, unicode-escapes, inline-script guard, line limit, minify-syntax, template support, prefix column); exact bytes compared with the Coq model and the printed literal decoded by the specification; distinct_nontrivial = distinct (units, configuration) whose output is not the identity")
+
+	stk := NewStats("c01-keys", seed)
+	extra += corrKeys(r, stk, cf, n)
+	stk.Finish("property keys and member names: grid of identifier-boundary names (ASCII, ES5/ESNext table edges, ZWJ/ZWNJ, non-BMP identifier characters, reserved words, __proto__, non-identifiers) plus seeded UTF-16 sequences x printer configuration; canPrintIdentifierUTF16, the string-key branch of printProperty and the name branch of EDot compared byte-exactly with the Coq model (tables regenerated from unicode.go by translator t9idtables); the printed key decoded by the specification must denote the same key; distinct_nontrivial = distinct (name, configuration)")
 
 	stn := NewStats("c01-numbers", seed)
 	extra += corrNumbers(r, stn, cf, n+n/2)
@@ -46,6 +56,10 @@ func run(seed uint64, n int, tier string, outDir string) []*Stats {
 	glueAnnexB(r, sta, n/2)
 	sta.Finish("generated sloppy-mode block-level function programs (hlib/jsgen_c01.go, ECMA-262 Annex B.3.3: abrupt exit / outer-closure read / write before the declaration position; plain, if, loop, switch, try and labelled blocks; sibling redeclaration; parameter-name and outer-let clashes; use before the block runs) through api.Transform, executed in node; a difference is accepted only as one of the three recorded deviations, each recognised exactly: output = natively executed declaration-first variant (assignment at block entry), output = natively executed variant with the clashing parameter turned into a var (hoisted over a parameter name), ReferenceError from a let placed in a case clause that is not entered; distinct_nontrivial = distinct programs with something observable before the declaration or a name clash")
 
+	stasi := NewStats("c01-asi", seed)
+	glueASI(r, stasi, n/2)
+	stasi.Finish("newline-sensitive programs (hlib/jsgen_c01.go GenASI: a line ending in postfix ++/--, an expression, an operator or an assignment followed by a line starting with [ ( ` + - ++ -- / . in instanceof ?. =>; the restricted productions return / break / continue with and without label / yield / async followed by a line break): node decides what the input means (invalid combinations discarded), the output of api.Transform (pretty and minify-whitespace) must behave the same; distinct_nontrivial = distinct valid programs")
+
 	// 2. behaviour through the public API (node oracle)
 	st := NewStats("c01", seed)
 	glueBehaviour(r, st, n)
@@ -53,7 +67,7 @@ func run(seed uint64, n int, tier string, outDir string) []*Stats {
 	if err := os.WriteFile(filepath.Join(outDir, "c01_cases.v"), []byte(cf.String()+extra), 0o644); err != nil {
 		panic(err)
 	}
-	return []*Stats{sts, stn, stg, sth, sta, st}
+	return []*Stats{sts, stk, stn, stg, sth, sta, stasi, st}
 }
 
 type tcase struct {
